@@ -244,7 +244,7 @@ class _Sub(ast.NodeTransformer):
 
 
 def subst(e: ast.expr, store: Dict[str, ast.expr]) -> ast.expr:
-    return ast.fix_missing_locations(_simplify(_Sub(store).visit(copy.deepcopy(e))))
+    return ast.fix_missing_locations(_ExpandNext().visit(_simplify(_Sub(store).visit(copy.deepcopy(e)))))
 
 
 class _Simplify(ast.NodeTransformer):
@@ -259,6 +259,19 @@ class _Simplify(ast.NodeTransformer):
         return n
 
 
+    def visit_Call(self, n: ast.Call):
+        """f(*(a, b, c)) -> f(a, b, c)"""
+        self.generic_visit(n)
+        if any(isinstance(a, ast.Starred) and isinstance(a.value, (ast.Tuple, ast.List)) and not any(isinstance(x, ast.Starred) for x in a.value.elts) for a in n.args):
+            args = []
+            for a in n.args:
+                if isinstance(a, ast.Starred) and isinstance(a.value, (ast.Tuple, ast.List)) and not any(isinstance(x, ast.Starred) for x in a.value.elts):
+                    args.extend(a.value.elts)
+                else:
+                    args.append(a)
+            n.args = args
+        return n
+
     def visit_ListComp(self, n: ast.ListComp):
         """[f(x) for x in (a, b, c)] over a literal tuple/list, no filter -> [f(a), f(b), f(c)]"""
         self.generic_visit(n)
@@ -272,6 +285,32 @@ class _Simplify(ast.NodeTransformer):
 
 def _simplify(e: ast.AST) -> ast.AST:
     return _Simplify().visit(e)
+
+
+class _ExpandNext(ast.NodeTransformer):
+    """next((f(x) for x in (a, b) if c(x)), d)  ->  f(a) if c(a) else (f(b) if c(b) else d): the first member of a literal
+    tuple that passes the filter (the generator is consumed by nothing else)."""
+
+    def visit_Call(self, n: ast.Call):
+        self.generic_visit(n)
+        if isinstance(n.func, ast.Name) and n.func.id == "next" and len(n.args) == 2 and not n.keywords and isinstance(n.args[0], ast.GeneratorExp) and len(n.args[0].generators) == 1:
+            g = n.args[0].generators[0]
+            if isinstance(g.iter, (ast.Tuple, ast.List)) and len(g.iter.elts) <= 6 and not g.is_async and not any(isinstance(x, ast.Starred) for x in g.iter.elts):
+                out: ast.expr = n.args[1]
+                for x in reversed(g.iter.elts):
+                    env: Dict[str, ast.expr] = {}
+                    if isinstance(g.target, ast.Name):
+                        env[g.target.id] = x
+                    elif isinstance(g.target, ast.Tuple) and isinstance(x, ast.Tuple) and len(x.elts) == len(g.target.elts) and all(isinstance(t, ast.Name) for t in g.target.elts):
+                        env.update({t.id: v for t, v in zip(g.target.elts, x.elts)})
+                    else:
+                        return n
+                    elt = _simplify(_Sub(env).visit(copy.deepcopy(n.args[0].elt)))
+                    conds = [_simplify(_Sub(env).visit(copy.deepcopy(c))) for c in g.ifs]
+                    test = conds[0] if len(conds) == 1 else (ast.BoolOp(op=ast.And(), values=conds) if conds else ast.Constant(value=True))
+                    out = ast.IfExp(test=test, body=elt, orelse=out)
+                return out
+        return n
 
 
 def _is_const_text(t: str) -> bool:
@@ -338,7 +377,9 @@ class _State:
 
 
 class Executor:
-    def __init__(self, nonnull: Iterable[str] = (), limit: int = 20000, unroll_max: int = 6, rewrite: Optional[Callable[[ast.expr], ast.expr]] = None):
+    def __init__(self, nonnull: Iterable[str] = (), limit: int = 20000, unroll_max: int = 6, rewrite: Optional[Callable[[ast.expr], ast.expr]] = None, helpers: Optional[Dict[str, ast.FunctionDef]] = None):
+        self.helpers = dict(helpers or {})  # module-level helper functions whose calls are executed symbolically (parameters bound to the substituted arguments)
+        self._depth = 0
         self.nonnull = set(nonnull)
         self.limit = limit
         self.unroll_max = unroll_max
@@ -461,8 +502,68 @@ class Executor:
             base = ef.recv.split(".")[0].split("[")[0]
             self._invalidate(st, {base})
 
+    def _first_helper_call(self, e: ast.AST) -> Optional[ast.Call]:
+        """Innermost-first helper call that is evaluated unconditionally when `e` is."""
+        if isinstance(e, (ast.ListComp, ast.SetComp, ast.DictComp, ast.GeneratorExp, ast.Lambda)):
+            return None
+        kids = [e.values[0]] if isinstance(e, ast.BoolOp) else ([e.test] if isinstance(e, ast.IfExp) else [c for c in ast.iter_child_nodes(e) if not isinstance(c, (ast.expr_context, ast.operator, ast.cmpop, ast.boolop, ast.unaryop))])
+        for c in kids:
+            r = self._first_helper_call(c)
+            if r is not None:
+                return r
+        if isinstance(e, ast.Call) and isinstance(e.func, ast.Name) and e.func.id in self.helpers and not e.keywords and not any(isinstance(a, ast.Starred) for a in e.args):
+            return e
+        return None
+
+    def _run_helper(self, call: ast.Call, st: _State, then: Callable[[ast.expr, _State], None]) -> None:
+        fn = self.helpers[call.func.id]
+        params = [a.arg for a in fn.args.args]
+        if len(call.args) > len(params) or fn.args.vararg or fn.args.kwarg or self._depth > 4:
+            then(opaque(call.func.id, "helper call not bound"), st)
+            return
+        defaults = dict(zip(params[len(params) - len(fn.args.defaults) :], fn.args.defaults))
+        inner_store: Dict[str, ast.expr] = {}
+        for k, p in enumerate(params):
+            if k < len(call.args):
+                inner_store[p] = call.args[k]
+            elif p in defaults:
+                inner_store[p] = copy.deepcopy(defaults[p])
+            else:
+                then(opaque(call.func.id, "missing argument"), st)
+                return
+        outer_store = st.store
+        body = [b for b in fn.body if not (isinstance(b, ast.Expr) and isinstance(b.value, ast.Constant))]
+        st.store = inner_store
+        self._depth += 1
+
+        def end(s2: _State, ex: str, r) -> None:
+            s2.store = dict(outer_store)
+            if ex == "raise":
+                return  # the helper raises: the caller's path ends (not followed)
+            self._depth -= 1
+            try:
+                then(r if (ex == "return" and r is not None) else ast.Constant(value=None), s2)
+            finally:
+                self._depth += 1
+
+        try:
+            self.run_block(body, 0, st, end)
+        finally:
+            self._depth -= 1
+
     def _lift(self, roots: List[ast.expr], st: _State, then: Callable[[List[ast.expr], _State], None]) -> None:
         """Resolve conditional expressions inside already substituted expressions by forking on their tests."""
+        if self.helpers:
+            for i, r in enumerate(roots):
+                hc = self._first_helper_call(r)
+                if hc is not None:
+                    def cont(val: ast.expr, s2: _State, i=i, r=r, hc=hc) -> None:
+                        new = list(roots)
+                        new[i] = val if r is hc else self._replace(r, hc, val)
+                        self._lift(new, s2, then)
+
+                    self._run_helper(hc, st, cont)
+                    return
         for i, r in enumerate(roots):
             ie = _first_ifexp(r)
             if ie is not None:
@@ -512,8 +613,15 @@ class Executor:
             self.run_block(stmts, i + 1, s2, cont)
 
         if isinstance(s, ast.If):
-            for v, s2 in self.decide(self.sub(s.test, st), st):
-                self.run_block(list(s.body if v else s.orelse), 0, s2, lambda s3, ex, r: nxt(s3) if ex == "fall" else cont(s3, ex, r))
+            def branch(rs, s1):
+                for v, s2 in self.decide(rs[0], s1):
+                    self.run_block(list(s.body if v else s.orelse), 0, s2, lambda s3, ex, r: nxt(s3) if ex == "fall" else cont(s3, ex, r))
+
+            t = self.sub(s.test, st)
+            if self.helpers and self._first_helper_call(t) is not None:
+                self._lift([t], st, branch)
+            else:
+                branch([t], st)
             return
         if isinstance(s, ast.Continue):
             cont(st, "continue", None)
